@@ -6,7 +6,7 @@ W=/tmp/confirm
 cd $W || exit 2
 git checkout -q -- .; git checkout -q --detach $(git -C /repo rev-parse HEAD)
 if [ "$1" = "--repo-diff" ]; then git -C /repo diff > /tmp/confirm_patch.diff; P=/tmp/confirm_patch.diff; else P="$1"; fi
-git apply "$P" || { echo "patch does not apply"; exit 2; }
+if [ "$1" != "--head" ]; then git apply "$P" || { echo "patch does not apply"; exit 2; }; fi
 nice ninja -C _build -j${JOBS:-12} > /tmp/confirm_ninja.log 2>&1 || { echo "BUILD-FAIL"; tail -20 /tmp/confirm_ninja.log; git checkout -q -- .; exit 1; }
 (cd _build && ctest -j8 --timeout 900 > /tmp/confirm_ctest.log 2>&1)
 rc=$?
